@@ -603,7 +603,7 @@ impl Transformer {
     ) -> Result<()> {
         let mut new_svg_attrs = AttrMap::new();
         let mut orig_svg_attrs = HashMap::new();
-        if let OutputEvent::Start(orig_svg) = first_svg {
+        if let OutputEvent::Start(orig_svg) | OutputEvent::Empty(orig_svg) = first_svg {
             new_svg_attrs = orig_svg.attrs.clone();
             orig_svg_attrs = orig_svg.get_attrs();
         }
@@ -756,8 +756,12 @@ impl Transformer {
         }
 
         let mut has_svg_element = false;
+        let mut empty_root = false;
         if let (pre_svg, Some(first_svg), remain) = events.partition("svg") {
             pre_svg.write_to(writer)?;
+            // the root is always written as a start tag; an empty root (`<svg/>`) has
+            // no end tag among the remaining events, so must be closed explicitly
+            empty_root = matches!(first_svg, OutputEvent::Empty(_));
             self.write_root_svg(first_svg, bbox, writer)?;
             events = remain;
             has_svg_element = true;
@@ -783,6 +787,9 @@ impl Transformer {
         // i.e. this is a full SVG document rather than a fragment.
         if has_svg_element && self.context.config.add_auto_styles {
             self.write_auto_styles(&mut events, writer)?;
+        }
+        if empty_root {
+            OutputList::from([OutputEvent::End("svg".to_owned())].as_slice()).write_to(writer)?;
         }
 
         events.write_to(writer)
